@@ -767,17 +767,42 @@ def classify(X, text, r, m, s):
     ev, fl = m.notes, s.notes
     if s.err == "redefinitionSpace" and r.err != "redefinition":
         return "macroequal-ignores-space"
-    if "pragmaPeek" in ev:
+    # the model's ghost events are lost when its run ends in a diagnostic: the reference's informational flags
+    # (the same conditions seen from the standard's side) and, for #pragma, the text itself stand in
+    if "pragmaPeek" in ev or pragma_names_funclike(text):
         return "pragma-funclike-lookahead"
-    if "dirInPeek" in ev:
+    if "dirInPeek" in ev or "dirAfterName" in fl:
         return "directive-between-name-and-paren"
     if "crossInvocation" in fl or "depthConf" in ev:
         return "depth-count-confusion"
-    if "strNested" in ev and only_strings_differ(X, r, s, False):
+    if ("strNested" in ev or "strOfInvocation" in fl) and only_strings_differ(X, r, s, False):
         return "stringize-nested-call"
-    if "emptySpace" in ev and only_strings_differ(X, r, s, True):
+    if ("emptySpace" in ev or "emptyWithSpace" in fl) and only_strings_differ(X, r, s, True):
         return "empty-expansion-space"
     return None
+
+
+def directive_after_text(text):
+    seen_text = False
+    for ln in text.split("\n"):
+        if re.match(r"\s*#", ln):
+            if seen_text and re.match(r"\s*#\s*(define|undef)\b", ln):
+                return True
+        elif ln.strip():
+            seen_text = True
+    return False
+
+
+def pragma_names_funclike(text):
+    """a #pragma line that mentions a function-like macro defined before it"""
+    funs = set()
+    for ln in text.split("\n"):
+        m = re.match(r"\s*#\s*define\s+([A-Za-z_]\w*)\(", ln)
+        if m:
+            funs.add(m.group(1))
+        elif re.match(r"\s*#\s*pragma\b", ln) and funs & set(re.findall(r"[A-Za-z_]\w*", ln)):
+            return True
+    return False
 
 
 def one(X, text, plain=True):
@@ -831,6 +856,11 @@ def examine1(X, texts, label, expect=None, asan=None):
         if m.err == "fuel" or mn.err == "fuel" or s.err == "fuel":
             X.ninputs["too-large(skipped)"] = X.ninputs.get("too-large(skipped)", 0) + 1
             continue
+        if (r.crash is not None or rn.crash is not None) and m.err is not None and directive_after_text(t):
+            # the model stops with a diagnostic (its ghost events are lost), the code dies, and a directive lies
+            # behind the first text line: a directive was reached inside an invocation (undefined, 6.10.3p11;
+            # the use-after-free is the C19 finding undef-during-argument-collection)
+            s.notes = set(s.notes) | {"dirInArgs"}
         if "dirInArgs" in s.notes or "dirInArgs" in m.notes:
             X.ninputs["undefined-6.10.3p11(skipped)"] = X.ninputs.get("undefined-6.10.3p11(skipped)", 0) + 1
             continue
@@ -1162,7 +1192,7 @@ def run(ck):
         validate_spec(X, corpus, "corpus")
 
     # 2. main stream
-    n_main = 1000 if quick else 12000
+    n_main = 1000 if quick else 8000
     cfg = Cfg()
     main = [gen_case(rng, cfg, H) for _ in range(n_main)]
     for k in range(0, len(main), 4000):
@@ -1202,7 +1232,7 @@ def run(ck):
         X.secs["K-B"] = round(time.time() - t0, 1)
     # 7. the reference itself against gcc and clang
     if not ck.violations:
-        vt = main[:400 if quick else 4000] + [t for t, _ in (red[:100 if quick else 800])] + \
+        vt = main[:400 if quick else 2500] + [t for t, _ in (red[:100 if quick else 600])] + \
             sorted(set(t for t, _ in errs)) + progs[:60 if quick else 300]
         t0 = time.time()
         validate_spec(X, vt, "gen")
